@@ -116,8 +116,15 @@ type stubCtx struct{ done chan struct{} }
 
 func (c stubCtx) Deadline() (time.Time, bool) { return time.Time{}, false }
 func (c stubCtx) Done() <-chan struct{}       { return c.done }
-func (c stubCtx) Err() error                  { return context.Canceled }
-func (c stubCtx) Value(any) any               { return nil }
+func (c stubCtx) Err() error {
+	select {
+	case <-c.done:
+		return context.Canceled
+	default:
+		return nil
+	}
+}
+func (c stubCtx) Value(any) any { return nil }
 
 func mkCtx(expired bool) stubCtx {
 	ch := make(chan struct{})
@@ -256,13 +263,16 @@ func FailedSubmit() {
 	var delivered []*pipeline.BlockItem
 	for i := 0; i < k; i++ {
 		name := string(rune('0' + i))
-		// the caller's context has expired exactly when the pipeline is full (back-pressure):
-		// then only the cancellation is ready in Submit's select, otherwise only the send
+		// the caller's context may have expired already, whether or not the pipeline is full
+		// (a live context on a full pipeline would just block: excluded). With an expired
+		// context and room in the pipeline Submit may go either way.
 		expired := sym.Bool("ctx_expired" + name)
-		sym.Assume(expired == (len(ch) == cap(ch)))
+		full := len(ch) == cap(ch)
+		sym.Assume(expired || !full)
 		err := p.Submit(mkCtx(expired), uint(i), nil, pcommon.Tip{})
 		ok[i] = err == nil
-		sym.Assert(ok[i] == !expired, "a submission fails iff its context expired under back-pressure")
+		sym.Assert(expired || ok[i], "a submission with a live context and room in the pipeline succeeds")
+		sym.Assert(!(expired && full) || !ok[i], "a submission whose context expired under back-pressure fails")
 		// environment: a decode worker may take the queued block now or later
 		if sym.Bool("worker_runs_after" + name) {
 			for len(ch) > 0 {
